@@ -1,6 +1,6 @@
 """C16 — Update-candidate info and DFU partition images describe the envelope file (contracts)."""
 from pyvc.contract import Contract
-from pyvc.types import Int, Bool, Bytes, Str, Obj, PathStr, OneOf
+from pyvc.types import Int, Bool, Bytes, Str, Obj, PathStr, OneOf, Opt, Const
 
 PROPERTY = "C16"
 LEVEL = "proof"
@@ -67,6 +67,55 @@ c.raises("GeneratorError", when="not EXISTS(input_file)", must=True, label="miss
 c.raises("GeneratorError", label="unwritable_output")
 c.raises("FileNotFoundError", label="unwritable_storage_output")
 
+
+# ------------------------------------------------------------------------------------------------
+# The command entry point cmd_image.main: arguments are passed on BY POSITION - which named argument lands in which parameter of
+# create_files_for_update / create_files_for_boot is part of the statement (two addresses or two file names swapped would still run).
+import contracts.C00_common as C00  # noqa: E402
+
+
+def _image_main_setup(it, env):
+    it.call_site_summaries = {"ImageCreator.create_files_for_update": C00.recording_summary("ImageCreator.create_files_for_update", ("GeneratorError", "FileNotFoundError")),
+                              "ImageCreator.create_files_for_boot": C00.recording_summary("ImageCreator.create_files_for_boot", ("GeneratorError", "SUITError", "ValueError", "KeyError", "SystemExit"))}
+
+
+c = Contract(F, "main", ["C16", "C07"])
+c.param("image", Const("update"))
+c.param("input_file", Str())
+c.param("storage_output_file", Str())
+c.param("dfu_partition_output_file", Str())
+c.param("update_candidate_info_address", Int())
+c.param("dfu_partition_address", Int())
+c.param("dfu_max_caches", Int())
+c.param("storage_output_directory", Str())
+c.param("storage_address", Int())
+c.param("config_file", Opt(Str()))
+c.variants = [("update", {}), ("boot", {"image": Const("boot")})]
+c.call_by_keyword = True
+c.setup = _image_main_setup
+
+
+def _image_main_checks(it, ctx):
+    import z3
+    if ctx.outcome != "return":
+        return None
+    up, bo = C00.calls_of(it, "ImageCreator.create_files_for_update"), C00.calls_of(it, "ImageCreator.create_files_for_boot")
+    if ctx.arg("image").conc == "update":
+        goals = [("update_runs_once_and_boot_does_not", z3.BoolVal(len(up) == 1 and not bo))]
+        if len(up) == 1:
+            goals += C00.reaches(up[0], ctx, [(n, n) for n in ("input_file", "storage_output_file", "dfu_partition_output_file", "update_candidate_info_address",
+                                                                "dfu_partition_address", "dfu_max_caches")])
+        return goals
+    goals = [("boot_runs_once_and_update_does_not", z3.BoolVal(len(bo) == 1 and not up))]
+    if len(bo) == 1:
+        goals += C00.reaches(bo[0], ctx, [("input_files", "input_file"), ("storage_output_directory", "storage_output_directory"), ("storage_address", "storage_address"),
+                                           ("config_file", "config_file")])
+    return goals
+
+
+c.check("entry", _image_main_checks)
+for e_ in ("GeneratorError", "FileNotFoundError", "SUITError", "ValueError", "KeyError", "SystemExit"):
+    c.raises(e_)
 
 # ================================================================================================
 # B — bounded stand-in through cmd_image.main(image="update"), both hex files read back with the independent HEX reader
